@@ -25,6 +25,9 @@ def main():
     ap.add_argument("--props", default=None)
     ap.add_argument("--tier", default="quick")
     ap.add_argument("--keep", action="store_true")
+    ap.add_argument("--tests", action="store_true", help="also run the pinned test suite on the changed tree")
+    ap.add_argument("--store", default=None, help="seed id: copy patch/demo and write meta.json under /verif/seeded/<id>")
+    ap.add_argument("--needs", default=None)
     a = ap.parse_args()
     seed = os.path.abspath(a.seed)
     meta = {}
@@ -46,10 +49,55 @@ def main():
             out["demo_on_repo"], out["demo_on_change"] = d0.returncode, d1.returncode
             out["demo_output_on_change"] = (d1.stdout + d1.stderr)[-400:]
         for p in [x for x in props if x]:
-            r = sh("VERIF_REPO=%s %s/.venv/bin/python -m pyvc.cli prop %s --tier %s" % (scratch, ROOT, p, a.tier), cwd=ROOT)
+            r = sh("VERIF_EVIDENCE_DIR=%s/.evidence VERIF_REPO=%s %s/.venv/bin/python -m pyvc.cli prop %s --tier %s" % (scratch, scratch, ROOT, p, a.tier), cwd=ROOT)
             lines = [l for l in r.stdout.splitlines() if l.startswith(("VIOLATION", "UNDECIDED", "CHECKER-ERROR", p + " tier"))]
             out["checks"][p] = {"exit": r.returncode, "lines": [l[:260] for l in lines[:6]]}
+        if a.tests:
+            import re
+            base = json.load(open("/root/.vp/BASELINE.json"))
+            stable = set(eval(base["stable_pass"]) if isinstance(base["stable_pass"], str) else base["stable_pass"])
+            env = "OMP_NUM_THREADS=1 OPENBLAS_NUM_THREADS=1 MKL_NUM_THREADS=1"
+            r = sh("%s /venv/bin/python -m pytest -q -p no:cacheprovider --timeout=900 --continue-on-collection-errors --junitxml=%s/junit.xml 2>&1 | tail -3" % (env, scratch), cwd=scratch)
+            import xml.etree.ElementTree as ET
+            passed = set()
+            try:
+                for tc in ET.parse(os.path.join(scratch, "junit.xml")).getroot().iter("testcase"):
+                    if not any(ch.tag in ("failure", "error", "skipped") for ch in tc):
+                        passed.add("%s::%s" % (tc.get("classname"), tc.get("name")))
+            except Exception as e:
+                out["tests_error"] = str(e)
+            out["stable_tests_missing_after_change"] = sorted(stable - passed)
+            out["tests_tail"] = r.stdout[-300:]
         print(json.dumps(out, indent=1))
+        if a.store:
+            dst = os.path.join(ROOT, "seeded", a.store)
+            os.makedirs(dst, exist_ok=True)
+            for f in ("patch.diff", "demo.py"):
+                if os.path.exists(os.path.join(seed, f)) and os.path.abspath(seed) != os.path.abspath(dst):
+                    shutil.copy(os.path.join(seed, f), os.path.join(dst, f))
+            notes = {}
+            if os.path.exists(os.path.join(seed, "notes.json")):
+                try:
+                    notes = json.load(open(os.path.join(seed, "notes.json")))
+                except Exception:
+                    notes = {}
+            m = {
+                "id": a.store,
+                "property": props[0] if props else None,
+                "checked_properties": props,
+                "summary": notes.get("summary"),
+                "needs_to_manifest": a.needs or notes.get("needs_to_manifest"),
+                "why_tests_pass": notes.get("why_tests_pass"),
+                "files": notes.get("files"),
+                "confirmed": {
+                    "demo_exit_on_repo": out.get("demo_on_repo"),
+                    "demo_exit_on_change": out.get("demo_on_change"),
+                    "stable_tests_missing_after_change": out.get("stable_tests_missing_after_change", "not run"),
+                    "how": "tools/seedcheck.py: scratch copy of /repo HEAD under /tmp, patch -p1, demo.py on /repo and on the copy, pinned pytest suite on the copy (single-threaded BLAS), checks run with VERIF_REPO=<copy>; copy removed",
+                },
+                "checks": out["checks"],
+            }
+            json.dump(m, open(os.path.join(dst, "meta.json"), "w"), indent=1)
         sh("rm -f %s/replays/*.json" % ROOT)
         return 0
     finally:
